@@ -250,6 +250,27 @@ class Session(object):
         pa.add_constant(name, np.array(data, dtype=float))
         self.log(op='add_constant', a=a, name=name, data=data)
 
+    def op_set_constant(self, a):
+        """In-place write to an existing constant, by one of the public
+        routes; arrays made from this one (clones, extracts, pickles) or the
+        one it was made from must not see it."""
+        pa = self.arrs[a]
+        if not pa.constants:
+            return
+        name = self.rng.choice(sorted(pa.constants))
+        k = len(pa.constants[name].get_npy_array())
+        data = self.fresh(k)
+        route = self.rng.choice(['set', 'attr', 'get', 'carray'])
+        if route == 'set':
+            pa.set(**{name: np.array(data, dtype=float)})
+        elif route == 'attr':
+            getattr(pa, name)[:] = data
+        elif route == 'get':
+            pa.get(name)[:] = data
+        else:
+            pa.constants[name].get_npy_array()[:] = data
+        self.log(op='set_constant', a=a, name=name, data=data, route=route)
+
     def op_resize_fill(self, a):
         pa = self.arrs[a]
         n = self.n(a)
@@ -328,7 +349,7 @@ class Session(object):
            'extract_into', 'empty_clone', 'add_property', 'add_property',
            'remove_property', 'remove_property', 'add_constant',
            'resize_fill', 'set_tag', 'align', 'pickle', 'copy_properties',
-           'set_outputs', 'set']
+           'set_outputs', 'set', 'set_constant', 'set_constant']
 
     def run(self, tid, length):
         self.arrs = {'A': self.make('A'), 'B': self.make('B'),
@@ -337,7 +358,7 @@ class Session(object):
         err = None
         for i in range(length):
             op = self.rng.choice(self.OPS)
-            a = self.rng.choice(['A', 'A', 'B'])
+            a = self.rng.choice(['A', 'A', 'A', 'B', 'B', 'R'])
             try:
                 getattr(self, 'op_' + op)(a)
             except Exception as ex:
